@@ -37,6 +37,7 @@ TCoreN0 == << [a |-> <<1, 1>>, b |-> <<2, 1>>, c |-> Z, d |-> <<1, 2>>],
 TCoreH0 == << {"a", "b", "d"}, {"a", "c"}, {"b"}, {"c"}, {"a", "b", "d"}, {"b"} >>
 TCoreTargets == {1, 5, 7, 10, 12}
 TCoreTargetsQ == {1, 7, 10, 12}
+TCoreTargetsE == {1, 7, 10}
 TCoreTargetsProbe == {1, 5, 7}
 TCoreTargetsAll == 1..12
 
@@ -64,6 +65,7 @@ TGapN0 == << [a |-> <<1, 1>>, b |-> <<2, 1>>, c |-> Z,        d |-> <<1, 2>>],
 TGapH0 == << {"a", "b", "d"}, {}, {"b", "c"}, {"c"} >>
 TGapTargetsAll == {1, 3, 4, 5, 6, 7}        \* not the gap itself
 TGapHAll == {5}
+TGapTargets == {1, 3, 5}
 
 \* ---- parameter domains
 ValsQ   == {Z, <<1, 1>>, <<3, 2>>}
